@@ -415,6 +415,49 @@ R.contract(
     replayable=False,
 )
 
+# the special negative scenarios: what their descriptions make the checks demand
+ScenarioData = lambda: Obj(META + "CoveragePhaseData", description=Choice("Unspecified HTTP method: PUT", "Missing `X-Key` at header", "Missing `q` at query", "Maximum value"), location=NoneT,
+                           parameter=OneOf(NoneT, Const("X-Key"), Const("Authorization"), Const("q")), parameter_location=OneOf(NoneT, Const("header"), Const("query")))
+ScenarioCase = Obj("schemathesis.generation.case:Case", operation=Obj("schemathesis.schemas:APIOperation", label=Str, schema=Opq("OASchema")),
+                   meta=OneOf(NoneT, Obj(META + "CaseMetadata", generation=Obj(META + "GenerationInfo", time=Real, mode=EnumOf(GM)), components=Const({}),
+                                         phase=Obj(META + "PhaseInfo", name=Opq("PhaseName"), data=OneOf(ScenarioData(), Obj("spec:OtherPhaseData"))))))
+R.contract(
+    CKS + "unsupported_method",
+    prop="C03",
+    args={"ctx": CheckCtx, "response": Obj("schemathesis.core.transport:Response", status_code=IntRange(100, 599), headers=DictOf(optional={"allow": ListOf(Str, [1], widen=False)}),
+                                           request=Obj("spec:SentRequest", method=Choice("PUT", "OPTIONS"))), "case": ScenarioCase},
+    raises=["AssertionError"],
+    ensures={
+        # an "Unspecified HTTP method" case passes only with 405 + Allow; every other case is none of this check's business
+        "undocumented_method_must_be_refused_with_405_and_allow": "implies(case.meta is not None and is_instance(case.meta.phase.data, 'CoveragePhaseData') and response.request.method != 'OPTIONS' and "
+                                                                  "case.meta.phase.data.description.startswith('Unspecified HTTP method:'), response.status_code == 405 and 'allow' in response.headers)",
+    },
+    raises_ensures={
+        "fails_only_for_an_undocumented_method_case": "raised == 'AssertionError' and case.meta is not None and is_instance(case.meta.phase.data, 'CoveragePhaseData') and "
+                                                      "case.meta.phase.data.description.startswith('Unspecified HTTP method:') and response.request.method != 'OPTIONS' and "
+                                                      "not (response.status_code == 405 and 'allow' in response.headers)",
+    },
+    replayable=False,
+)
+R.contract(
+    CKS + "missing_required_header",
+    prop="C03",
+    args={"ctx": CheckCtx, "response": RespS, "case": ScenarioCase},
+    raises=["AssertionError"],
+    ensures={
+        "missing_header_case_must_be_refused": "implies(case.meta is not None and is_instance(case.meta.phase.data, 'CoveragePhaseData') and case.meta.phase.data.parameter is not None and "
+                                               "case.meta.phase.data.parameter_location == 'header' and case.meta.phase.data.description.startswith('Missing '), "
+                                               "response.status_code == (401 if case.meta.phase.data.parameter == 'Authorization' else 406))",
+    },
+    raises_ensures={
+        "fails_only_for_a_missing_header_case": "raised == 'AssertionError' and case.meta is not None and is_instance(case.meta.phase.data, 'CoveragePhaseData') and "
+                                                "case.meta.phase.data.parameter_location == 'header' and case.meta.phase.data.description.startswith('Missing ') and "
+                                                "response.status_code != (401 if case.meta.phase.data.parameter == 'Authorization' else 406)",
+    },
+    bounded_note="default allowed status list",
+    replayable=False,
+)
+
 LEVEL_TEXT = ("Deductive: the numeric / length / item-count boundary generators are verified against 'conforms to the declared schema' for ALL integer bounds "
               "(multipleOf clauses for a finite set of divisors, labelled bounded); the case-level label rule is a postcondition on every case yielded by _iter_coverage_cases.")
 LEVEL_NOTE = "Trusted: E1 (values generated from a schema are valid for it), floats as reals, pyvc semantics (E9)."
